@@ -342,13 +342,18 @@ inductive Op where
   | several (increase : Bool)
 deriving DecidableEq, Repr
 
-/-- the +1 modifications of `modify_random_controllers`, one per drawn controller -/
-def modifyMany (sp : Space) : St → List Name → Except Err St
+/-- `the_modification = 1 if increase else 1` : as the code stands both "Increase_several" and
+"Decrease_several" move the drawn controllers by +1 (see proposed_fixes/FC16_decrease_several.diff;
+the theorems hold for every value of this constant) -/
+def severalDelta (_increase : Bool) : Int := 1
+
+/-- the modifications of `modify_random_controllers`, one per drawn controller -/
+def modifyMany (sp : Space) (delta : Int) : St → List Name → Except Err St
   | st, [] => .ok st
   | st, n :: t =>
-    match modifyNamed sp st n 1 with      -- `the_modification = 1 if increase else 1`
+    match modifyNamed sp st n delta with
     | .error e => .error e
-    | .ok st' => modifyMany sp st' t
+    | .ok st' => modifyMany sp delta st' t
 
 /-- what the patched `random.choices(population, k=k)` of the harness returns: the first `k`
 recorded numbers, each taken modulo the population size -/
@@ -365,7 +370,7 @@ def modifyOp (sp : Space) (st : St) (op : Op) (step : Int) (choices : List Nat) 
     match modifyNamed sp st n1 (if d.east then step else -step) with
     | .error e => .error e
     | .ok st2 => modifyNamed sp st2 n2 (if d.north then step else -step)
-  | .several _ => modifyMany sp st (drawn sp (min step (sp.length : Int)) choices)
+  | .several inc => modifyMany sp (severalDelta inc) st (drawn sp (min step (sp.length : Int)) choices)
 
 /-- the second component of what the operator returns -/
 def retOf (sp : Space) (op : Op) (step : Int) : Int :=
